@@ -530,10 +530,21 @@ impl Property for C20 {
         }
         done(CaseResult::pass().nontrivial(reached_any && !expected.is_empty()), &mut labels)
     }
+    fn known_signature(&self, case: &Case) -> Option<String> {
+        // genuine defect (see /verif/fixes/C20-nlj-fallback-reexecutes-left-child.diff): the nested-loop join's
+        // out-of-memory fallback re-executes its already executed left child; a RepartitionExec below it
+        // (target_partitions >= 2) panics with "partition not used yet".
+        let nlj = case.query.shape.join_algo() == Some(JoinAlgo::NestedLoop);
+        if nlj && matches!(case.fault, FaultKind::MemRefuse { disk: true, .. }) && case.cfg.target_partitions >= 2 {
+            return Some(NLJ_FALLBACK_SIGNATURE.to_string());
+        }
+        None
+    }
     fn extra(&self, _tier: Tier, _seed: u64) -> Result<serde_json::Value, (String, Case)> {
         Ok(json!({ "fault_points": FAULT_POINTS.load(Ordering::Relaxed), "fault_points_reached": REACHED_POINTS.load(Ordering::Relaxed) }))
     }
 }
 
+pub const NLJ_FALLBACK_SIGNATURE: &str = "nlj-fallback-reexecutes-left-child";
 static FAULT_POINTS: std::sync::atomic::AtomicU64 = std::sync::atomic::AtomicU64::new(0);
 static REACHED_POINTS: std::sync::atomic::AtomicU64 = std::sync::atomic::AtomicU64::new(0);
